@@ -1,4 +1,5 @@
 "C18 — tokenizers are lossless: token spans tile the abbreviation"
+import os
 from hypothesis import strategies as st
 from vlib import core, alphabets as A
 from vlib.core import guard
@@ -109,3 +110,26 @@ def run(ctx):
         st.builds(lambda l, s: {'lang': l, 's': s}, st.sampled_from(['markup', 'css', 'cssv']), st.text(max_size=30)),
     )
     ctx.run_hypothesis('tile', strat, ctx.pick(3000, 60000))
+    if ctx.thorough or os.environ.get('VERIF_FUZZ'):
+        ctx.run_atheris('tile', ctx.pick(20000, 400000))
+
+
+# coverage-guided layer (thorough tier): byte 0 selects the language, the rest is the string
+def _fz_decode(data):
+    if not data:
+        return None
+    from vlib.fuzz import text_of
+    return {'lang': ('markup', 'css', 'cssv')[data[0] % 3], 's': text_of(data[1:])}
+
+
+def _fz_seeds():
+    ts = A.test_seeds()
+    for s in A.MARKUP_SEEDS + ts['markup']:
+        yield b'\x00' + s.encode('utf-8')
+    for s in A.CSS_SEEDS + ts['css']:
+        yield b'\x01' + s.encode('utf-8')
+        yield b'\x02' + s.encode('utf-8')
+
+
+FUZZ = {'tile': {'decode': _fz_decode, 'seeds': _fz_seeds, 'max_len': 48,
+                 'dict': ['${1:', '${', '$#', '$@-', '$@^', '*3', '#f', '!important', '--', '@@', '\\\\', '{', '}', '[a="', "='", '(', ')']}}
